@@ -765,6 +765,27 @@ impl From<watch::error::RecvError> for SubscriptionError {
     }
 }
 
+/// Re-exports of the private matcher algebra for the external verification harness (replay runner).
+/// Compiled only with `--cfg sierra_db_sierradb_verif`; adds no behaviour.
+#[cfg(sierra_db_sierradb_verif)]
+pub mod verif_hooks {
+    use super::*;
+
+    pub fn has_seen(matcher: &SubscriptionMatcher, record: &EventRecord) -> bool {
+        matcher.has_seen(record)
+    }
+
+    pub fn update_state(matcher: &mut SubscriptionMatcher, record: &EventRecord) {
+        matcher.update_state(
+            record.partition_id,
+            record.partition_sequence,
+            record.partition_key,
+            record.stream_id.clone(),
+            record.stream_version,
+        )
+    }
+}
+
 #[cfg(test)]
 mod tests {
     use sierradb::{
